@@ -123,6 +123,39 @@ func run(rc *kernel.RunCtx) {
 		}
 	}
 
+	// Operations that OnDelete callbacks may perform from inside the unlock
+	// window of Set (re-entrant use under concurrency), generated up front
+	// like everything else that tasks dereference.
+	var cbOps []op
+	reentrant := tp.Bool(1, 3)
+	if reentrant {
+		for n := tp.Range(1, 6); n > 0; n-- {
+			o := op{key: tp.Choose(d.nKeys)}
+			switch c := tp.Choose(10); {
+			case c < 3:
+				o.kind = opSet
+				o.val = len(d.vals)
+				v := fmt.Sprintf("c%d", len(cbOps))
+				for p := tp.Choose(4); p > 0; p-- {
+					v += "y"
+				}
+				d.vals = append(d.vals, []byte(v))
+				d.valOf[v] = o.val
+			case c < 6:
+				o.kind = opGet
+			case c < 8:
+				o.kind = opDel
+			case c < 9:
+				o.kind = opClear
+			default:
+				o.kind = opStats
+			}
+			cbOps = append(cbOps, o)
+		}
+	}
+	cbNext := 0                  // scheduler-side: next callback operation
+	depth := make([]int, nTasks) // scheduler-side: callback nesting per task
+
 	conf := cache.Config{}
 	switch d.cfgKind {
 	case cfgUnlimited:
@@ -156,9 +189,57 @@ func run(rc *kernel.RunCtx) {
 	// scheduler-side state.
 	curCall := make([]int64, nTasks)
 
+	var c cache.Cache
 	if d.cfgKind == cfgLRUCallback || (d.cfgKind == cfgNoLRULimits && tp.Bool(1, 2)) {
 		conf.OnDelete = func(key, val []byte) {
 			kid, vid := keyID(d, key), valID(d, val)
+			defer func() {
+				// Possibly one re-entrant operation from inside the callback.
+				type nested struct {
+					o    op
+					ti   int
+					call int64
+					prev int64
+				}
+				// The result travels by value (boxed by the runtime): memory
+				// that the scheduler initialises during the run must never be
+				// dereferenced by a task.
+				n := k.Ask("OnDelete.op", func() any {
+					t := kLast(k)
+					if t == nil || t.Idx >= nTasks || depth[t.Idx] > 0 || cbNext >= len(cbOps) || !tp.Bool(1, 2) {
+						return nested{ti: -1}
+					}
+					o := cbOps[cbNext]
+					cbNext++
+					depth[t.Idx]++
+					rc.Stats.Probe("reentrant-op-in-callback")
+					s := stamp()
+					prev := curCall[t.Idx]
+					curCall[t.Idx] = s
+
+					return nested{o: o, ti: t.Idx, call: s, prev: prev}
+				}).(nested)
+				if n.ti < 0 {
+					return
+				}
+				h := hist{kind: n.o.kind, key: n.o.key, val: n.o.val, task: n.ti, call: n.call, got: -1}
+				pv, stack := doOp(c, d, n.o, &h)
+				if pv != nil {
+					k.Report("panic", kernel.PanicSite(stack), fmt.Sprintf("%s from inside OnDelete panicked: %v\n%s", opNames[n.o.kind], pv, stack))
+
+					return
+				}
+				k.Tell("OnDelete.ret "+opNames[n.o.kind], func() {
+					h.ret = stamp()
+					d.history = append(d.history, h)
+					depth[n.ti]--
+					curCall[n.ti] = n.prev
+					k.Logf("    T", kernel.Itoa(n.ti), " (in OnDelete) ", describe(&h))
+					if n.o.kind == opStats {
+						checkStatsBounds(k, d, &h)
+					}
+				})
+			}()
 			k.Tell("OnDelete", func() {
 				// The enclosing Set belongs to the task that is running.
 				ti := -1
@@ -178,7 +259,7 @@ func run(rc *kernel.RunCtx) {
 	}
 	d.conf = conf
 
-	c := cache.New(conf)
+	c = cache.New(conf)
 	k.Logf("config kind=", kernel.Itoa(d.cfgKind), " lru=", btoa(conf.EnableLRU),
 		" maxcount=", kernel.Itoa(int(conf.MaxCount)), " maxsize=", kernel.Itoa(int(conf.MaxSize)),
 		" maxelem=", kernel.Itoa(int(conf.MaxElementSize)), " ondelete=", btoa(conf.OnDelete != nil),
